@@ -448,6 +448,12 @@ def run(chk, runner_ok):
         picks = panel if len(l) < 4 else rng.sample(panel, 2)   # 38k sequences of length 4
         for r in picks:
             cases.append((r, l, None, None))
+    # every sequence of the quoting tokens alone, longer (the quoting rule needs four tokens to
+    # tell whole-string quoting from a trailing pair of quotes)
+    qn = chk.n(5, 6)
+    for l in seqs(QUOTING, qn):
+        if len(l) > 3:
+            cases.append((["a"], l, None, None))
     n_l10n = len(cases)
     # every pair of argument sequences
     an = chk.n(3, 4)
@@ -480,7 +486,7 @@ def run(chk, runner_ok):
             uniq.append(c)
     chk.notes.append(f"ANDROID-CHECK: {n_l10n} (every localized sequence <= {ln} tokens over the 14-token "
                      f"alphabet x a panel of {len(panel)} references; length-4 sequences x 2 sampled "
-                     f"references), {n_args} argument-sequence pairs <= {an}+{an} tokens"
+                     f"references; every sequence of the six quoting tokens <= {qn}), {n_args} argument-sequence pairs <= {an}+{an} tokens"
                      + (" (every third pair)" if step > 1 else " (all)") +
                      f", all {len(fseq)}^2 pairs <= {fn}+{fn} over the whole alphabet, {n33} sampled "
                      f"pairs of the 3+3 product (8.7M pairs; 4+4 would be 1.7G): the exhaustive 3+3 / "
